@@ -48,7 +48,8 @@ func newDIDPool(t *rapid.T, code uint64, i int, pool string, template []interfac
 	if patches == nil {
 		patches = ValidPatches(t, 2, PatchOpts{})
 	}
-	c := &asm.Create{Code: code, RecoveryCommit: asm.Commit(p.rec, code), Delta: asm.Delta(asm.Commit(p.upd, code), patches), AnchorOrigin: p.origin}
+	c := &asm.Create{Code: code, RecoveryCommit: asm.Commit(p.rec, code), Delta: asm.Delta(asm.Commit(p.upd, code), patches), AnchorOrigin: p.origin,
+		DIDType: rapid.SampledFrom([]string{"", "", "", "0001", "z"}).Draw(t, "didType")} // the optional suffix-data type member
 	p.Suffix = c.Suffix()
 	return p, QOp{Type: "create", Suffix: p.Suffix, Request: c.Bytes(), ReqOrigin: p.origin, DID: i}
 }
